@@ -11,6 +11,7 @@ open MdIt.Lines
 #check @get_lines_no_cr
 #check @get_lines_of_views
 #check @get_lines_total
+#check @get_lines_faithful
 #check @is_empty_of_view
 #check @get_lines_split
 #check @get_lines_split_no_cr
@@ -46,6 +47,7 @@ open MdIt.Lines
 #print axioms get_lines_no_cr
 #print axioms get_lines_of_views
 #print axioms get_lines_total
+#print axioms get_lines_faithful
 #print axioms is_empty_of_view
 #print axioms get_lines_split
 #print axioms get_lines_split_no_cr
